@@ -1,8 +1,8 @@
 package main
 
 import (
-	"go/token"
 	"fmt"
+	"go/token"
 	"go/types"
 	"os"
 	"sort"
@@ -131,11 +131,11 @@ var c16NonnegParams = map[string][]string{
 
 // implementations whose contract is checked
 var c16ContractImpls = map[string]contract{
-	"embedded/store.(*extraAttribute).deserialize":            {ret: 0, arg: 1},
-	"embedded/store.(*truncatedUptoTxAttribute).deserialize":  {ret: 0, arg: 1},
-	"embedded/store.(*deletedAttribute).deserialize":          {ret: 0, arg: 1},
-	"embedded/store.(*expiresAtAttribute).deserialize":        {ret: 0, arg: 1},
-	"embedded/store.(*nonIndexableAttribute).deserialize":     {ret: 0, arg: 1},
+	"embedded/store.(*extraAttribute).deserialize":           {ret: 0, arg: 1},
+	"embedded/store.(*truncatedUptoTxAttribute).deserialize": {ret: 0, arg: 1},
+	"embedded/store.(*deletedAttribute).deserialize":         {ret: 0, arg: 1},
+	"embedded/store.(*expiresAtAttribute).deserialize":       {ret: 0, arg: 1},
+	"embedded/store.(*nonIndexableAttribute).deserialize":    {ret: 0, arg: 1},
 }
 
 func isByteSliceLike(t types.Type) bool {
@@ -382,9 +382,9 @@ func allAnon(f *ssa.Function) []*ssa.Function {
 // obligations it has and how many are proven (used to build and review the frozen root list).
 func c16Discover(c *Ctx, scope func(ssa.Value) bool) {
 	type row struct {
-		name           string
-		total, proven  int
-		hasByteParam   bool
+		name          string
+		total, proven int
+		hasByteParam  bool
 	}
 	var rows []row
 	for _, fn := range c.allFns {
@@ -436,7 +436,9 @@ func c16Panics(c *Ctx) {
 		if f == nil {
 			continue
 		}
-		for g := range staticReach(f, 4, func(x *ssa.Function) bool { return !strings.Contains(x.String(), modPrefix) && x.Pkg != nil && !strings.HasPrefix(x.Pkg.Pkg.Path(), modPrefix) }) {
+		for g := range staticReach(f, 4, func(x *ssa.Function) bool {
+			return !strings.Contains(x.String(), modPrefix) && x.Pkg != nil && !strings.HasPrefix(x.Pkg.Pkg.Path(), modPrefix)
+		}) {
 			if !seen[g] {
 				seen[g] = true
 				owner[g] = name
@@ -776,6 +778,7 @@ func c16ValueLogID(c *Ctx, pfx string) {
 var c16AllocExempt = map[string]string{
 	"embedded/appendable/remoteapp.(*remoteStorageReader).readAtCompressedFrame": "reader of objects in remote (S3) storage: not one of the components the property lists (on-disk logs), and the reader does not know the object size; same shape as the repaired singleapp.ReadAt",
 }
+
 func init() {
 	c16AllocExempt["cmd/immuadmin/command.nextTx"] = "immuadmin hot-backup restore (seen by the whole-program load only): parses a backup file picked by the operator, not one of the components the property lists"
 }
@@ -820,7 +823,9 @@ func c16AllocRules(c *Ctx, pfx string) {
 	r = pfx + "/metadata-limits"
 	if f := c.mustFn(r, "embedded/appendable/multiapp.OpenWithHooks"); f != nil {
 		pos := whenCond(true, func(a string) bool { return strings.Contains(a, "const:0 < ") && strings.Contains(a, "GetInt") })
-		okE := whenCond(true, func(a string) bool { return strings.Contains(a, "GetInt") && !strings.Contains(a, "<") && !strings.Contains(a, "==") })
+		okE := whenCond(true, func(a string) bool {
+			return strings.Contains(a, "GetInt") && !strings.Contains(a, "<") && !strings.Contains(a, "==")
+		})
 		for name, e := range map[string]edgePred{"fileSize>0": pos, "FILE_SIZE present": okE} {
 			q := &pathQ{fn: f, fromEntry: true, to: successReturn, barrier: e}
 			w := q.bypass()
